@@ -197,6 +197,99 @@ static void conv_batch(const From* a, const int* ca, long it)
     }
 }
 
+// ---------------------------------------------------------------- width-changing integer transfers
+// store_as(M*, batch<L>) and load_as<L>(M const*) with memory element type M of another width than the lane type L: every
+// lane must be static_cast<M>(lane) / static_cast<L>(element), i.e. modular wrap when narrowing (never saturation) and sign- or
+// zero-extension by the SOURCE type when widening; full-range hostile values.  (The placement side of these forms -- exactly
+// size*sizeof(M) bytes -- is C04's business.)
+template <class L, class M>
+static void width_pair(uint64_t seed)
+{
+    using BL = xs::batch<L, ARCH>;
+    constexpr size_t N = BL::size;
+    const std::string tn = std::string(tname<L>()) + "_lanes_" + tname<M>() + "_mem";
+    static OpStat& ss = reg("C06", "store_as_other_width", tn.c_str());
+    static OpStat& sl = reg("C06", "load_as_other_width", tn.c_str());
+    if (!ss.on && !sl.on)
+        return;
+    Rng rng(mix(seed, strhash(tn.c_str())));
+    alignas(64) L a[N], lo[N];
+    alignas(64) M m[N + 8], mo[N + 8];
+    long iters = budget(3000, 100000);
+    for (long it = 0; it < iters; ++it)
+    {
+        int c;
+        for (size_t i = 0; i < N; ++i)
+        {
+            a[i] = hostile<L>(rng, c);
+            m[i] = hostile<M>(rng, c);
+        }
+        // values just outside / inside the range of the narrower type, both signs
+        if (it % 4 == 1)
+            for (size_t i = 0; i < N; ++i)
+            {
+                const int nb = (int)(8 * std::min(sizeof(L), sizeof(M)));
+                __int128 edge = ((__int128)1 << (nb - (int)(rng.next() % 2))) * ((rng.next() & 1) ? 1 : -1) + (__int128)((int)(rng.next() % 7) - 3);
+                a[i] = (L)(typename std::make_unsigned<L>::type)(unsigned __int128)edge;
+            }
+        BL va = BL::load_aligned(a);
+        if (ss.on)
+        {
+            for (int form = 0; form < 4; ++form)
+            {
+                memset(mo, 0x5a, sizeof mo);
+                mark_case("store_as_other_width", tn.c_str(), a, sizeof a);
+                M* dst = (form & 1) ? mo + 1 : mo; // element-aligned but (for form 1, 3) not register-aligned
+                if (form == 0)
+                    xs::store_as(dst, va, xs::aligned_mode {});
+                else if (form == 1)
+                    xs::store_as(dst, va, xs::unaligned_mode {});
+                else if (form == 2)
+                    va.store_aligned(dst);
+                else
+                    va.store_unaligned(dst);
+                for (size_t i = 0; i < N; ++i)
+                {
+                    ss.evals++;
+                    ss.cell((unsigned)(form << 8 | (i & 63) << 2 | (a[i] < 0 ? 1 : 0) | (it % 4 == 1 ? 2 : 0)));
+                    const M e = static_cast<M>(a[i]);
+                    if (dst[i] != e)
+                    {
+                        viol(ss, "unclassified", "{\"form\":" + std::to_string(form) + ",\"lane\":" + std::to_string(i) + ",\"in\":\"" + hexv(a[i]) + "\",\"got\":\"" + hexv(dst[i]) + "\",\"exp\":\"" + hexv(e) + "\"}");
+                        break;
+                    }
+                }
+                if (ss.want_sample())
+                    ss.samples.push_back("{\"form\":" + std::to_string(form) + ",\"in\":" + hexarr(a, N) + "}");
+            }
+        }
+        if (sl.on)
+        {
+            for (int form = 0; form < 4; ++form)
+            {
+                mark_case("load_as_other_width", tn.c_str(), m, sizeof(M) * N);
+                memcpy(mo + 1, m, sizeof(M) * N);
+                const M* src = (form & 1) ? mo + 1 : m;
+                BL l = form == 0 ? xs::load_as<L, ARCH>(src, xs::aligned_mode {}) : form == 1 ? xs::load_as<L, ARCH>(src, xs::unaligned_mode {})
+                    : form == 2                                                                 ? BL::load_aligned(src)
+                                                                                                : BL::load_unaligned(src);
+                l.store_aligned(lo);
+                for (size_t i = 0; i < N; ++i)
+                {
+                    sl.evals++;
+                    sl.cell((unsigned)(form << 8 | (i & 63) << 2 | (m[i] < 0 ? 1 : 0)));
+                    const L e = static_cast<L>(m[i]);
+                    if (lo[i] != e)
+                    {
+                        viol(sl, "unclassified", "{\"form\":" + std::to_string(form) + ",\"lane\":" + std::to_string(i) + ",\"in\":\"" + hexv(m[i]) + "\",\"got\":\"" + hexv(lo[i]) + "\",\"exp\":\"" + hexv(e) + "\"}");
+                        break;
+                    }
+                }
+            }
+        }
+    }
+}
+
 // to_float on int32/int64 (to_int is monitored with the rounding functions in the C08 unit)
 template <class I>
 static void to_float_batch(const I* a, const int* ca)
@@ -340,6 +433,22 @@ void vh::unit_main()
     run_pair<double, uint64_t>(s);
     run_to_float<int32_t>(s);
     run_to_float<int64_t>(s);
+    width_pair<int32_t, int8_t>(s);
+    width_pair<int32_t, uint8_t>(s);
+    width_pair<int32_t, int16_t>(s);
+    width_pair<uint32_t, uint16_t>(s);
+    width_pair<uint32_t, int8_t>(s);
+    width_pair<int64_t, int32_t>(s);
+    width_pair<int64_t, uint16_t>(s);
+    width_pair<uint64_t, uint32_t>(s);
+    width_pair<uint64_t, int8_t>(s);
+    width_pair<int16_t, int8_t>(s);
+    width_pair<uint16_t, uint8_t>(s);
+    width_pair<int16_t, int32_t>(s);
+    width_pair<int8_t, int16_t>(s);
+    width_pair<uint8_t, int32_t>(s);
+    width_pair<int32_t, int64_t>(s);
+    width_pair<uint32_t, uint64_t>(s);
     Rng rng(mix(s, 4242));
     bitcast_from<int8_t>(rng);
     bitcast_from<uint8_t>(rng);
